@@ -1,7 +1,7 @@
 (* Pinned statements of C10 (generated once by tools/mkpins.py from coq/props/C10.v, then committed). *)
 From DV Require Import Model.Base Model.NameCheck Model.Parser Model.Header Model.Readers Model.Uncompress
   Model.Mutate Spec.PlainSpec Proofs.Hoare Proofs.HeaderBits Proofs.InsertLemmas Proofs.PlainWf Proofs.InsertFail Proofs.InsertSpec Proofs.HeaderInv Spec.RecordSpec Proofs.WalkSkip Proofs.ReplaceInv Proofs.Totality
-  Model.Renamer Proofs.FailAtomic Spec.NameSpec Proofs.RenameSpec Proofs.RenameContent Proofs.RenameAny props.C10.
+  Model.Renamer Proofs.FailAtomic Spec.NameSpec Proofs.RenameSpec Proofs.RenameContent Proofs.RenameAny Proofs.WalkFresh Proofs.CursorHist Proofs.RenameTotal props.C10.
 Check (C10_insert_bound : forall sec rr s s',
   m_insert_rr sec rr s = (s', Ok tt) -> (N.of_nat (length (pp_packet (fst s'))) <= 8192)%N).
 Print Assumptions C10_insert_bound.
@@ -71,3 +71,12 @@ Check (C10_rename_total_on_decompressed : forall v it sl tl sfx, dinv v ->
   (exists s', m_rename (wire_of_labels tl) (wire_of_labels sl) sfx (v, it) = (s', Ok tt)) \/
   (exists e, m_rename (wire_of_labels tl) (wire_of_labels sl) sfx (v, it) = ((v, it), Err e))).
 Print Assumptions C10_rename_total_on_decompressed.
+Check (C10_step_with_rename_outcome : forall o v it, objst v -> is_response (pp_packet v) -> it_section it <> SQuestion -> hop4_ok_at v o ->
+  exists s1 r, run_hop4 o (v, it) = (s1, r) /\ (r = Ok tt \/ exists e, r = Err e) /\
+               objst (fst s1) /\ snd s1 = it /\ is_response (pp_packet (fst s1))).
+Print Assumptions C10_step_with_rename_outcome.
+Check (C10_first_operation_outcome : forall p v it o, bytes_ok p -> parse p = Ok v -> is_response p -> it_section it <> SQuestion ->
+  decompresses_first o -> hop3_ok_at v o ->
+  exists s1 r, run_hop3 o (v, it) = (s1, r) /\ (r = Ok tt \/ exists e, r = Err e) /\
+               objst (fst s1) /\ snd s1 = it /\ is_response (pp_packet (fst s1))).
+Print Assumptions C10_first_operation_outcome.
